@@ -139,9 +139,13 @@ fn hook_task_decide(site: &'static str, kind: qbice::storage::verif::PointKind) 
     )
 }
 
-fn hook_thread_point(_site: &'static str) {}
+fn hook_thread_point(site: &'static str) { simkit::pipeline::on_thread_point(site); }
 
 fn hook_event(site: &'static str, a: u64, b: u64) {
+    simkit::pipeline::on_event(site, a, b);
+    if site.starts_with("wb_") || site == "simkv_commit" {
+        return;
+    }
     sched::probe(site);
     SINK.with(|s| {
         if let Some(h) = s.borrow().as_ref() {
@@ -321,6 +325,18 @@ impl NodeExec {
     }
 }
 
+pub const UNSET_INPUT: i64 = -7777;
+
+/// Never invoked in ordinary runs (every input is set before it is read);
+/// on an engine recovered from a crash prefix it makes "this input is not in
+/// the store" observable as a sentinel instead of a missing-executor panic.
+impl<C: Config> Executor<In, C> for NodeExec {
+    async fn execute(&self, _q: &In, _te: &TrackedEngine<C>) -> Val {
+        vec![UNSET_INPUT]
+    }
+    fn execution_style() -> ExecutionStyle { ExecutionStyle::Normal }
+}
+
 impl<C: Config> Executor<Ex, C> for NodeExec {
     async fn execute(&self, q: &Ex, te: &TrackedEngine<C>) -> Val {
         self.run(q.0, te).await
@@ -354,6 +370,7 @@ impl<C: Config> Executor<Pj, C> for NodeExec {
 
 pub fn register_all<C: Config>(engine: &mut qbice::Engine<C>, h: &Arc<Harness>) {
     let e = Arc::new(NodeExec(h.clone()));
+    engine.register_executor::<In, NodeExec>(e.clone());
     engine.register_executor::<Ex, NodeExec>(e.clone());
     engine.register_executor::<Nm, NodeExec>(e.clone());
     engine.register_executor::<Fw, NodeExec>(e.clone());
